@@ -133,6 +133,128 @@ def cases(tier, seed, phase):
         rng.shuffle(mx)
         yield {'kind': 'mx', 'mx': mx, 'a': rng.choice([1, 'nodata']), 'attempts': rng.randrange(12), 'domain': True,
                'first_error': j % 3 == 1, 'concurrent': j % 3 == 2}
+    for c in mxcache_cases(tier, seed):
+        yield c
+
+
+def mxcache_cases(tier, seed):
+    """One MxRecord through a history of attempts under a virtual clock: answers with times to live, answers that change, resolver
+    errors and 'no usable record' answers in between (Model/Mx.lean: the expiring cache)."""
+    for j in range(250 if tier == 'quick' else 5000):
+        rng = rng_for(seed, 'c11mc', j)
+        steps = []
+        for _ in range(rng.randint(2, 6)):
+            kind = rng.choice(['mx', 'mx', 'mx', 'a', 'nothing', 'error', 'empty', 'aerror'])
+            if kind == 'mx':
+                mx = [[rng.choice([0, 5, 10, 10, 20]), h + 1, rng.choice([0, 30, 30, 60])] for h in range(rng.randint(1, 4))]
+                rng.shuffle(mx)
+                a = rng.choice(['nodata', [30]])
+            elif kind == 'a':
+                mx, a = rng.choice(['nodata', 'notfound']), [rng.choice([0, 30, 60]) for _ in range(rng.randint(1, 2))]
+            elif kind == 'nothing':
+                mx, a = rng.choice(['nodata', 'notfound']), rng.choice(['nodata', 'notfound'])
+            elif kind == 'empty':
+                mx, a = [], [30]
+            elif kind == 'aerror':
+                mx, a = 'nodata', 'error'
+            else:
+                mx, a = 'error', [30]
+            steps.append({'dt': rng.choice([0, 1, 10, 29, 30, 31, 59, 60, 61, 100]), 'attempts': rng.randrange(6), 'mx': mx, 'a': a})
+        yield {'kind': 'mxcache', 'steps': steps}
+
+
+def run_mxcache(case, model):
+    import gevent
+    import pycares
+    import slimta.relay.smtp.mx as mxmod
+    from slimta.relay.smtp.mx import MxSmtpRelay
+    from slimta.relay import PermanentRelayError, TransientRelayError
+    from slimta.util.dns import DNSError
+    from slimta.envelope import Envelope
+    saved_query, saved_time = mxmod.DNSResolver.query, mxmod.time
+
+    class Rec(object):
+        def __init__(self, host, ttl, pref=None):
+            self.host, self.ttl, self.priority = host, ttl, pref
+    ERR = {'nodata': pycares.errno.ARES_ENODATA, 'notfound': pycares.errno.ARES_ENOTFOUND, 'error': pycares.errno.ARES_ESERVFAIL}
+    cur = {'now': 1000, 'step': None, 'asked': []}
+
+    class Clock(object):
+        def time(self):
+            return float(cur['now'])
+
+    def fake_query(name, query_type):
+        cur['asked'].append(query_type)
+        res = gevent.event.AsyncResult()
+        ans = cur['step']['mx'] if query_type == 'MX' else cur['step']['a']
+        if isinstance(ans, str):
+            res.set_exception(DNSError(ERR[ans]))
+        elif query_type == 'MX':
+            res.set([Rec('mx%d.example' % h, ttl, p) for p, h, ttl in ans])
+        else:
+            res.set([Rec('10.0.0.%d' % i, ttl) for i, ttl in enumerate(ans)])
+        return res
+    mxmod.DNSResolver.query = staticmethod(fake_query)
+    mxmod.time = Clock()
+    out = []
+    try:
+        relay = MxSmtpRelay(connect_timeout=0.1, command_timeout=0.1)
+        chosen = []
+
+        class Static(object):
+            def __init__(self, dest):
+                self.dest = dest
+
+            def attempt(self, envelope, attempts):
+                chosen.append(self.dest)
+                return None
+
+            def kill(self):
+                pass
+        relay.new_static_relay = lambda dest, port: Static(dest)
+        env = Envelope('sender@example.com', ['rcpt0@dest.example'])
+        env.parse(b'Subject: x\r\n\r\nbody\r\n')
+        for st in case['steps']:
+            cur['now'] += st['dt']
+            cur['step'] = st
+            del cur['asked'][:]
+            del chosen[:]
+            try:
+                relay.attempt(env, st['attempts'])
+                d = chosen[0] if chosen else '?'
+                res = 'deliver:%s' % ('0' if d == 'dest.example' else d[2:].split('.')[0] if d.startswith('mx') else d)
+            except PermanentRelayError:
+                res = 'perm'
+            except TransientRelayError:
+                res = 'temp'
+            except BaseException as e:
+                res = 'other:' + type(e).__name__
+            out.append(('asked ' if cur['asked'] else 'cached ') + res)
+    finally:
+        mxmod.DNSResolver.query, mxmod.time = saved_query, saved_time
+
+    def enc(ans, mx):
+        if isinstance(ans, str):
+            return ans
+        return 'r:' + ','.join(('%d.%d.%d' % tuple(x)) if mx else str(x) for x in ans)
+    now = 1000
+    words = []
+    for st in case['steps']:
+        now += st['dt']
+        words.append('%d;%d;%s;%s' % (now, st['attempts'], enc(st['mx'], True), enc(st['a'], False)))
+    m = model.ask('mx cache ' + '/'.join(words))
+    impl = ' / '.join(out)
+    mismatch = None if m == impl else {'op': 'mx cache', 'impl': impl, 'model': m, 'steps': '/'.join(words)}
+    hits = []
+    for st, o in zip(case['steps'], out):
+        if 'other' in o:
+            hits.append(hit('c11.not-a-relay-result.mx.' + o.split(':')[-1], 'the MX relay ended with something other than a result or a relay error', observed=o))
+            break
+        if o.startswith('asked') and (st['mx'] == 'error' or (st['mx'] in ('nodata', 'notfound') and st['a'] == 'error')) and not o.endswith('temp'):
+            hits.append(hit('c11.mx-resolution.resolver-error-not-transient', 'a resolver error must be a transient failure', observed=o))
+            break
+    tags = ['mxcache', 'steps=%d' % len(out)] + sorted(set(('step:' + o.split(':')[0]) for o in out))
+    return mismatch, hits, tags
 
 
 def classify(value):
@@ -733,7 +855,7 @@ def run_mx(case, model):
 
 
 def run_case(case, model):
-    fn = {'smtp': run_smtp, 'pipe': run_pipe, 'http': run_http, 'mx': run_mx}[case['kind']]
+    fn = {'smtp': run_smtp, 'pipe': run_pipe, 'http': run_http, 'mx': run_mx, 'mxcache': run_mxcache}[case['kind']]
     mismatch, hits, tags = fn(case, model)
     key = tuple(sorted((k, str(v)) for k, v in case.items()))
     return CaseResult(mismatch, hits, key, [case['kind']] + tags)
